@@ -139,36 +139,107 @@ FA_HARNESS = r"""
 pub enum ErrorKind { InvalidValue }
 pub struct Error; impl Error { pub fn raw<T>(_: ErrorKind, _: T) -> Error { Error } }
 pub struct TokenStream; impl TokenStream { pub fn from_str(_: &str) -> Result<TokenStream, ()> { Ok(TokenStream) } }
+/// owned strings of the result are kept as the slices they were copied from (rewrite: .to_owned() -> .verif_ref())
+pub type String<'a> = &'a str;
+pub trait VerifStr { fn verif_ref(&self) -> &str; fn verif_rsplit_once<'a>(&'a self, pat: &str) -> Option<(&'a str, &'a str)>; fn verif_split_once<'a>(&'a self, pat: &str) -> Option<(&'a str, &'a str)>; }
+fn at(h: &[u8], i: usize, p: &[u8]) -> bool { if i + p.len() > h.len() { return false; } let mut j = 0; while j < p.len() { if h[i + j] != p[j] { return false; } j += 1; } true }
+impl VerifStr for str {
+    fn verif_ref(&self) -> &str { self }
+    /// str::rsplit_once with a string pattern (std uses the two-way searcher, which CBMC cannot get through): last occurrence, naive search
+    fn verif_rsplit_once<'a>(&'a self, pat: &str) -> Option<(&'a str, &'a str)> {
+        let (h, p) = (self.as_bytes(), pat.as_bytes()); let mut i = h.len();
+        loop { if at(h, i, p) { return Some(unsafe { (core::str::from_utf8_unchecked(&h[..i]), core::str::from_utf8_unchecked(&h[i + p.len()..])) }); } if i == 0 { return None; } i -= 1; }
+    }
+    fn verif_split_once<'a>(&'a self, pat: &str) -> Option<(&'a str, &'a str)> {
+        let (h, p) = (self.as_bytes(), pat.as_bytes()); let mut i = 0;
+        while i <= h.len() { if at(h, i, p) { return Some(unsafe { (core::str::from_utf8_unchecked(&h[..i]), core::str::from_utf8_unchecked(&h[i + p.len()..])) }); } i += 1; }
+        None
+    }
+}
 /*PARSE_FIELD_ATTR*/
 #[cfg(kani)]
 mod proofs {
     use super::*;
     pub fn naive_memchr(x: u8, text: &[u8]) -> Option<usize> { let mut i = 0; while i < text.len() { if text[i] == x { return Some(i); } i += 1; } None }
-    pub fn stub_format(_: core::fmt::Arguments<'_>) -> String { String::new() }
+    pub fn naive_memrchr(x: u8, text: &[u8]) -> Option<usize> { let mut i = text.len(); while i > 0 { i -= 1; if text[i] == x { return Some(i); } } None }
+    pub fn stub_format(_: core::fmt::Arguments<'_>) -> ::std::string::String { ::std::string::String::new() }
     fn ident() -> u8 { let b: u8 = kani::any(); kani::assume(b >= b'a' && b <= b'z'); b }
-    /// text as the as_args closure prints it: format!("{type_pat}::{field_pat}={attr}"); `attr_eq`: the attribute itself contains '=' at that index
-    fn case<const A: usize>(attr_eq: Option<usize>) {
-        let t = ident(); let f = ident();
+    /// text as the as_args closure prints it: format!("{type_pat}::{field_pat}={attr}"); T = length of the type pattern (4: it contains "::" itself, as in ns::T),
+    /// `attr_eq`: the attribute itself contains '=' at that index (doc = "...", serde(rename = "x"))
+    fn case<const T: usize, const A: usize>(attr_eq: usize) {
+        let mut ty = [0u8; T]; let mut i = 0; while i < T { ty[i] = ident(); i += 1; }
+        if T == 4 { ty[1] = b':'; ty[2] = b':'; }
+        let f = ident();
         let mut attr = [0u8; A]; let mut i = 0; while i < A { attr[i] = ident(); i += 1; }
-        if let Some(k) = attr_eq { attr[k] = b'='; }
-        let mut buf = [0u8; 16]; buf[0] = t; buf[1] = b':'; buf[2] = b':'; buf[3] = f; buf[4] = b'=';
-        let mut i = 0; while i < A { buf[5 + i] = attr[i]; i += 1; }
-        let s = unsafe { core::str::from_utf8_unchecked(&buf[..5 + A]) };
+        if attr_eq < A { attr[attr_eq] = b'='; }
+        let mut buf = [0u8; 16]; let mut n = 0;
+        let mut i = 0; while i < T { buf[n] = ty[i]; n += 1; i += 1; }
+        buf[n] = b':'; buf[n + 1] = b':'; buf[n + 2] = f; buf[n + 3] = b'='; n += 4;
+        let mut i = 0; while i < A { buf[n] = attr[i]; n += 1; i += 1; }
+        let s = unsafe { core::str::from_utf8_unchecked(&buf[..n]) };
         match parse_field_attr(s) {
-            Ok((ty, field, a)) => {
-                assert!(ty.as_bytes().len() == 1 && ty.as_bytes()[0] == t, "type pattern does not read back");
+            Ok((t, field, a)) => {
+                assert!(t.as_bytes().len() == T, "type pattern does not read back");
+                let mut i = 0; while i < T { assert!(t.as_bytes()[i] == ty[i], "type pattern does not read back"); i += 1; }
                 assert!(field.as_bytes().len() == 1 && field.as_bytes()[0] == f, "field pattern does not read back");
                 assert!(a.as_bytes().len() == A, "attribute text truncated or extended");
                 let mut i = 0; while i < A { assert!(a.as_bytes()[i] == attr[i], "attribute text does not read back"); i += 1; }
-                core::mem::forget(ty); core::mem::forget(field); core::mem::forget(a);
             }
             Err(_) => assert!(false, "--field-attr value written by as_args is rejected"),
         }
     }
-    #[kani::proof] #[kani::unwind(12)] #[kani::stub(core::slice::memchr::memchr, naive_memchr)] #[kani::stub(alloc::fmt::format, stub_format)]
-    fn field_attr_plain_roundtrips() { case::<2>(None) }
-    #[kani::proof] #[kani::unwind(12)] #[kani::stub(core::slice::memchr::memchr, naive_memchr)] #[kani::stub(alloc::fmt::format, stub_format)]
-    fn field_attr_with_equals_roundtrips() { case::<3>(Some(1)) }
+    /*GENERATED*/
+}
+"""
+
+
+OA_HARNESS = r"""
+#![allow(warnings)]
+use std::fmt;
+use std::str::FromStr;
+/*ABI*/
+pub mod cli {
+    use super::*;
+    pub enum ErrorKind { InvalidValue }
+    pub struct Error; impl Error { pub fn raw<T>(_: ErrorKind, _: T) -> Error { Error } }
+    /// the owned regex of the result is kept as the slice it was copied from (rewrite: .to_owned() -> .verif_ref())
+    pub type String<'a> = &'a str;
+    pub trait VerifStr { fn verif_ref(&self) -> &str; }
+    impl VerifStr for str { fn verif_ref(&self) -> &str { self } }
+/*PARSE*/
+}
+#[cfg(kani)]
+mod proofs {
+    use super::*;
+    pub fn naive_memchr(x: u8, text: &[u8]) -> Option<usize> { let mut i = 0; while i < text.len() { if text[i] == x { return Some(i); } i += 1; } None }
+    pub fn naive_memrchr(x: u8, text: &[u8]) -> Option<usize> { let mut i = text.len(); while i > 0 { i -= 1; if text[i] == x { return Some(i); } } None }
+    pub fn stub_format(_: core::fmt::Arguments<'_>) -> String { String::new() }
+    fn rx() -> u8 { let b: u8 = kani::any(); kani::assume((b >= b'a' && b <= b'z') || b == b'.' || b == b'*' || b == b'=' || b == b'|'); b }
+    fn case<const R: usize>() {
+        let abis = [Abi::C, Abi::Stdcall, Abi::EfiApi, Abi::Fastcall, Abi::ThisCall, Abi::Vectorcall, Abi::Aapcs, Abi::Win64, Abi::CUnwind, Abi::System];
+        let mut regex = [0u8; R]; let mut i = 0; while i < R { regex[i] = rx(); i += 1; }
+        let mut k = 0;
+        while k < abis.len() {
+            let abi = abis[k];
+            let text = abi.to_string();
+            let mut buf = [0u8; 24]; let mut n = 0;
+            let mut i = 0; while i < R { buf[n] = regex[i]; n += 1; i += 1; }
+            buf[n] = b'='; n += 1;
+            let tb = text.as_bytes(); let mut i = 0; while i < tb.len() { buf[n] = tb[i]; n += 1; i += 1; }
+            let s = unsafe { core::str::from_utf8_unchecked(&buf[..n]) };
+            match cli::parse_abi_override(s) {
+                Ok((a, r)) => {
+                    assert!(a == abi, "ABI does not read back");
+                    assert!(r.as_bytes().len() == R, "regex truncated or extended");
+                    let mut i = 0; while i < R { assert!(r.as_bytes()[i] == regex[i], "regex does not read back"); i += 1; }
+                }
+                Err(_) => assert!(false, "--override-abi value written by as_args is rejected"),
+            }
+            core::mem::forget(text);
+            k += 1;
+        }
+    }
+    /*GENERATED*/
 }
 """
 
@@ -233,13 +304,46 @@ def kernels(tier, seed):
     def fattr():
         cli = rd('options/cli.rs')
         pf = extract(cli, r'^fn parse_field_attr\(', what='parse_field_attr')
+        if pf.count('.to_owned()') != 3:
+            raise SliceError('parse_field_attr: expected three .to_owned() results')
+        pf_t = pf.replace('.to_owned()', '.verif_ref()')
+        pf_t = re.sub(r'\.rsplit_once\(("[^"]*")\)', r'.verif_rsplit_once(\1)', pf_t)
+        pf_t = re.sub(r'\.split_once\(("[^"]*")\)', r'.verif_split_once(\1)', pf_t)
+        gens, hs = [], []
+        for (T, A, eq, tier_) in ((1, 2, 9, 'quick'), (1, 3, 1, 'quick'), (4, 3, 1, 'quick'), (2, 4, 0, 'thorough'), (2, 4, 3, 'thorough'), (4, 2, 9, 'thorough')):
+            n = 'field_attr_t%d_a%d_%s' % (T, A, 'plain' if eq >= A else 'eq%d' % eq)
+            gens.append('#[kani::proof] #[kani::unwind(18)] #[kani::stub(core::slice::memchr::memchr, naive_memchr)] #[kani::stub(core::slice::memchr::memrchr, naive_memrchr)] #[kani::stub(alloc::fmt::format, stub_format)] fn %s() { case::<%d, %d>(%d) }' % (n, T, A, eq))
+            hs.append(H(n, stubbing=True, timeout=900, tier=tier_, desc='TYPE::FIELD=ATTR as printed by as_args reads back through parse_field_attr: type pattern of %d bytes%s, attribute of %d bytes%s' % (T, ' (containing ::)' if T == 4 else '', A, ' containing "=" at %d' % eq if eq < A else ''),
+                        sample={'type_len': T, 'attr_len': A, 'attr_has_equals_at': eq if eq < A else None}))
         k = Kernel(name='field_attr')
-        k.files = {'src/lib.rs': FA_HARNESS.replace('/*PARSE_FIELD_ATTR*/', pf)}
-        k.harnesses = [H('field_attr_plain_roundtrips', stubbing=True, timeout=2400, weight=2, tier='thorough', desc='TYPE::FIELD=ATTR as printed by as_args reads back through parse_field_attr (attribute without "=")', sample={'shape': 'T::f=aa'}),
-                       H('field_attr_with_equals_roundtrips', stubbing=True, timeout=2400, weight=2, tier='thorough', desc='same with an attribute that itself contains "=" (e.g. doc = "...")', sample={'shape': 'T::f=a=b'})]
+        k.files = {'src/lib.rs': FA_HARNESS.replace('/*PARSE_FIELD_ATTR*/', pf_t).replace('/*GENERATED*/', '\n    '.join(gens))}
+        k.harnesses = hs
         k.encoded = [enc('options/cli.rs', 'fn parse_field_attr', pf)]
-        k.stubs = ['clap Error::raw: unit', 'proc_macro2::TokenStream::from_str: always Ok (attribute syntax is not the subject)', '-Z stubbing: memchr naive loop, fmt::format empty']
+        k.stubs = ['clap Error::raw: unit', 'proc_macro2::TokenStream::from_str: always Ok (attribute syntax is not the subject)', '-Z stubbing: memchr / memrchr naive loops, fmt::format empty',
+                   'mechanical rewrites: .to_owned() -> .verif_ref() (results stay borrowed slices; String = &str), .rsplit_once("lit") / .split_once("lit") with a STRING pattern -> naive search with the same contract (std two-way searcher is out of reach); char patterns run the real std code']
         k.assumptions = ['as_args prints format!("{type_pat}::{field_pat}={attr}") (options/mod.rs field_attr_patterns); the harness builds that text byte by byte']
-        k.bounds = ['1-byte type and field patterns, attribute of 2-3 bytes']
+        k.bounds = ['type pattern 1, 2 or 4 bytes (a::b), 1-byte field pattern, attribute of 2-4 bytes with "=" at a chosen index']
         return k
-    return [kernel_or_error('generate_flag', gen), kernel_or_error('header_order', hdr), kernel_or_error('field_attr', fattr)]
+    def oabi():
+        cli = rd('options/cli.rs'); fun = rd('ir/function.rs')
+        pf = extract(cli, r'^fn parse_abi_override\(', what='parse_abi_override')
+        if pf.count('.to_owned()') != 1:
+            raise SliceError('parse_abi_override: expected one .to_owned() result')
+        pf_t = pf.replace('.to_owned()', '.verif_ref()').replace('fn parse_abi_override', 'pub fn parse_abi_override')
+        pf_t = re.sub(r'\.rsplit_once\(("[^"]*")\)', r'.verif_rsplit_once(\1)', pf_t)
+        pf_t = re.sub(r'\.split_once\(("[^"]*")\)', r'.verif_split_once(\1)', pf_t)
+        e = extract(fun, r'^pub enum Abi \{', what='enum Abi'); d = extract(fun, r'^impl (std::)?fmt::Display for Abi \{', what='Display for Abi'); f = extract(fun, r'^impl (std::str::)?FromStr for Abi \{', what='FromStr for Abi')
+        gens, hs = [], []
+        for R in (1, 2, 3):
+            n = 'override_abi_regex_len%d' % R
+            gens.append('#[kani::proof] #[kani::unwind(24)] #[kani::stub(core::slice::memchr::memchr, naive_memchr)] #[kani::stub(core::slice::memchr::memrchr, naive_memrchr)] #[kani::stub(alloc::fmt::format, stub_format)] fn %s() { case::<%d>() }' % (n, R))
+            hs.append(H(n, stubbing=True, timeout=1200, weight=2, tier='quick' if R == 2 else 'thorough', desc='--override-abi REGEX=ABI as printed by as_args reads back through parse_abi_override for every ABI and every %d-byte regex over [a-z.*=|]' % R, sample={'regex_len': R, 'abis': 'all 10'}))
+        k = Kernel(name='override_abi')
+        k.files = {'src/lib.rs': OA_HARNESS.replace('/*ABI*/', e + '\n' + d + '\n' + f).replace('/*PARSE*/', pf_t).replace('/*GENERATED*/', '\n    '.join(gens))}
+        k.harnesses = hs
+        k.encoded = [enc('options/cli.rs', 'fn parse_abi_override', pf), enc('ir/function.rs', 'enum Abi + Display + FromStr', e + d + f)]
+        k.stubs = ['clap Error::raw: unit', '-Z stubbing: memchr / memrchr naive loops, fmt::format empty', 'mechanical rewrite: .to_owned() -> .verif_ref() (the regex stays a borrowed slice; String = &str inside mod cli)']
+        k.assumptions = ['as_args prints format!("{item}={abi}") (options/mod.rs abi_overrides); the harness builds that text byte by byte from Abi::to_string()']
+        k.bounds = ['regex of 1-3 bytes over [a-z . * = |]; all 10 ABIs (concrete per iteration)']
+        return k
+    return [kernel_or_error('override_abi', oabi), kernel_or_error('generate_flag', gen), kernel_or_error('header_order', hdr), kernel_or_error('field_attr', fattr)]
